@@ -56,11 +56,15 @@ static void st_trace_hook(int phase, int dtype, int jcol, double u, int usepr, i
     g_ntr++;
 }
 
-/* ---- watchdog: a run that does not return within the limit is abandoned and recorded ---- */
-static sigjmp_buf g_wd_jmp; static volatile sig_atomic_t g_wd_armed; static int g_wd_exit; static char g_wd_what[160];
+/* ---- watchdog: a run that does not return within the limit is abandoned and recorded ----
+ * The limit is CPU time of this process (ITIMER_PROF), so a loaded machine cannot produce a false
+ * "hang".  A run inside a caller workspace is abandoned with siglongjmp (its growth loops do not call the
+ * allocation ledger, so no lock is held); a run under library allocation may be inside the ledger when the
+ * signal arrives, so there the process reports and exits and `check` resumes with the next case. */
+static sigjmp_buf g_wd_jmp; static volatile sig_atomic_t g_wd_armed; static int g_wd_exit, g_wd_exit_run; static char g_wd_what[160];
 static void st_on_alarm(int sig) {
     (void)sig;
-    if (g_wd_armed && !g_wd_exit) { g_wd_armed = 0; siglongjmp(g_wd_jmp, 1); }
+    if (g_wd_armed && !g_wd_exit && !g_wd_exit_run) { g_wd_armed = 0; siglongjmp(g_wd_jmp, 1); }
     /* exit mode (or a stray alarm while the case-level timer is running): report and stop */
     static const char m1[] = "SLU-ABORT watchdog: no return within the time limit (hang) ";
     if (write(2, m1, sizeof m1 - 1) < 0) {}
@@ -70,14 +74,14 @@ static void st_on_alarm(int sig) {
 }
 static void st_wd_install(const ctx_t *c) {
     struct sigaction sa; memset(&sa, 0, sizeof sa); sa.sa_handler = st_on_alarm; sa.sa_flags = SA_NODEFER;
-    sigaction(SIGALRM, &sa, NULL);
+    sigaction(SIGPROF, &sa, NULL);
     g_wd_exit = !strcmp(ctx_arg(c, "wd", "jmp"), "exit");
 }
 static void st_wd_arm(long ms) {
     struct itimerval it; memset(&it, 0, sizeof it); it.it_value.tv_sec = ms / 1000; it.it_value.tv_usec = (ms % 1000) * 1000;
-    setitimer(ITIMER_REAL, &it, NULL);
+    setitimer(ITIMER_PROF, &it, NULL);
 }
-static void st_wd_disarm(void) { struct itimerval it; memset(&it, 0, sizeof it); setitimer(ITIMER_REAL, &it, NULL); g_wd_armed = 0; }
+static void st_wd_disarm(void) { struct itimerval it; memset(&it, 0, sizeof it); setitimer(ITIMER_PROF, &it, NULL); g_wd_armed = 0; }
 
 /* The library prints diagnostics with printf ("Not enough memory to perform factorization.");
  * keep them out of the protocol stream: the protocol continues on a duplicate of fd 1, fd 1 itself
